@@ -139,6 +139,12 @@ def run(repo: Repo, L: Ledger, tier: str):
         seeks = [c for c in walk_shallow(proc.node) if isinstance(c, ast.Call) and isinstance(c.func, ast.Attribute) and c.func.attr == "seek" and pos(c) < pos(truncs[0])]
         if not seeks:
             ok, why = False, "buffer truncated at its current position, i.e. not emptied"
+    # ... and nothing is put back after it was emptied (a flush that re-buffers the unfinished run keeps a whole
+    # uninterrupted run in memory: the buffer then grows with the run, not with buffer_size)
+    if ok and truncs:
+        back = [c for c in walk_shallow(proc.node) if isinstance(c, ast.Call) and isinstance(c.func, ast.Attribute) and c.func.attr in ("write", "writelines") and is_name(c.func.value, buf) and pos(c) > pos(truncs[0])]
+        if back:
+            ok, why = False, f"after emptying the buffer the flush writes data back into it ({norm(back[0])[:50]}): an uninterrupted run longer than buffer_size is carried from flush to flush, so memory grows with the run length"
     L.check(ok, "R2", proc.short + ":empties", "flush takes the value and empties the buffer on every path", why, proc.loc())
     # configured size at the call site
     fi = repo.cls("FastaIndex")
